@@ -2470,3 +2470,82 @@ func checkFramePushedBeforeEntryPoll(c *core.Ctx) {
 		c.Undecided("R20.17", "interpreter function entry (pushFrame and the entry poll)", 0, "not found")
 	}
 }
+
+// checkTableSlicesResizedTogether (R15.10): the descriptor table keeps two parallel slices (a presence bitmap and the
+// items, 64 per bitmap word); Lookup bounds the key by one and indexes the other, Delete the other way round. A function
+// that replaces the header of one of them (re-slice, append, grow) without replacing the other's breaks the length
+// relation every accessor relies on: a later call with a key in the gap indexes out of range in the host.
+func checkTableSlicesResizedTogether(c *core.Ctx) {
+	type site struct {
+		fields map[int]token.Pos
+	}
+	n := 0
+	doneAt := map[token.Pos]bool{}
+	var tableFields []int
+	for _, fn := range moduleFns(c, "internal/descriptor") {
+		if doneAt[fn.Pos()] {
+			continue // one instantiation of a generic body is enough
+		}
+		doneAt[fn.Pos()] = true
+		st := site{fields: map[int]token.Pos{}}
+		var tbl *types.Struct
+		for _, b := range fn.Blocks {
+			for _, in := range b.Instrs {
+				s, ok := in.(*ssa.Store)
+				if !ok {
+					continue
+				}
+				fa, ok := s.Addr.(*ssa.FieldAddr)
+				if !ok {
+					continue
+				}
+				pt, ok := fa.X.Type().Underlying().(*types.Pointer)
+				if !ok {
+					continue
+				}
+				sty, ok := pt.Elem().Underlying().(*types.Struct)
+				if !ok {
+					continue
+				}
+				if named, ok := pt.Elem().(*types.Named); !ok || named.Obj().Pkg() == nil || !strings.HasSuffix(named.Obj().Pkg().Path(), "internal/descriptor") {
+					continue
+				}
+				if _, isSlice := sty.Field(fa.Field).Type().Underlying().(*types.Slice); !isSlice {
+					continue
+				}
+				tbl = sty
+				if _, seen := st.fields[fa.Field]; !seen {
+					st.fields[fa.Field] = s.Pos()
+				}
+			}
+		}
+		if tbl == nil {
+			continue
+		}
+		tableFields = tableFields[:0]
+		for i := 0; i < tbl.NumFields(); i++ {
+			if _, isSlice := tbl.Field(i).Type().Underlying().(*types.Slice); isSlice {
+				tableFields = append(tableFields, i)
+			}
+		}
+		if len(tableFields) < 2 {
+			continue // a single slice has no sibling to stay in step with
+		}
+		n++
+		var missing []string
+		var at token.Pos
+		for _, i := range tableFields {
+			if _, ok := st.fields[i]; !ok {
+				missing = append(missing, tbl.Field(i).Name())
+			} else {
+				at = st.fields[i]
+			}
+		}
+		c.Check(len(missing) == 0, "R15.10", core.SSAFuncName(fn)+" resizes the parallel slices of the descriptor table together", at,
+			fmt.Sprintf("all %d slice fields of the table are replaced in this function", len(tableFields)),
+			fmt.Sprintf("the function replaces the header of one slice of the table but not of %s: the accessors bound a key by the length of one slice and index the other (Lookup, Delete), so after this function a descriptor number in the gap indexes out of range in the host instead of giving EBADF", strings.Join(missing, ", ")))
+	}
+	if n == 0 {
+		c.Undecided("R15.10", "descriptor table", 0, "no function of internal/descriptor replaces a slice field of the table (anchor: the function that grows the table)")
+	}
+}
